@@ -747,12 +747,16 @@ Qed.
 Definition adj_schema : list string := ["with"; "skip"].
 Definition matrix_schema : list string := ["setup"; "adjustments"].
 
-(* an adjustment re-reads to itself when it has a `with`, its `skip` is stable, and its extra fields are fine *)
+(* an adjustment re-reads to itself when its `skip` is stable and its extra fields are fine; one without a
+   `with` marshals "with": {} (fix F20) and re-reads with an empty `with`, which marshals the same *)
 Definition adj_fix_ok (a : option madj) : Prop :=
   match a with
   | None => True
-  | Some a => ma_with a <> None /\ skip_ok (ma_skip a) /\ rem_ok adj_schema (ma_rem a)
+  | Some a => skip_ok (ma_skip a) /\ rem_ok adj_schema (ma_rem a)
   end.
+
+Lemma mj_with_none : mj_with None = mj_with (Some []).
+Proof. reflexivity. Qed.
 Definition setup_fix_ok (su : option (list (string * option (list string)))) : Prop :=
   match su with None => True | Some l => Forall (fun kv => snd kv <> None) l end.
 Definition matrix_fix_ok (m : matrix) : Prop :=
@@ -783,7 +787,11 @@ Lemma adj_roundtrip : forall a, adj_fix_ok a ->
   exists a', unm_adj (gv_of_json (mj_adj a)) = Ok a' 0 /\ mj_adj a' = mj_adj a.
 Proof.
   intros [a|] H; [|exists None; split; reflexivity].
-  destruct H as (W & Sk & R). destruct (ma_with a) as [l|] eqn:EW; [clear W|congruence].
+  destruct H as (Sk & R).
+  (* without a `with` the marshalled form is that of an empty `with` *)
+  assert (EW : exists l, adj_ol (ma_with a) (ma_skip a) = adj_ol (Some l) (ma_skip a)).
+  { destruct (ma_with a) as [l|]; [exists l; reflexivity|]. exists []. unfold adj_ol. rewrite mj_with_none. reflexivity. }
+  destruct EW as (l & EW).
   rewrite mj_adj_eq, EW. rewrite inline_friendly_members, gv_of_json_obj. cbn [unm_adj]. cbv zeta.
   pose proof (adj_reobj (Some (mj_with (Some l)))
                 (if is_empty_any (ma_skip a) then None else Some (gv_json (ma_skip a))) _ R) as X.
@@ -1501,15 +1509,9 @@ Definition unknown_again (g : gv) : Prop :=
 Definition alias_free (k : string) (rem : list (string * gv)) : Prop :=
   k = "" -> ~ In "id" (map fst rem) /\ ~ In "identifier" (map fst rem).
 
-(* a command step whose marshalled form is rejected by CommandStep.UnmarshalOrdered: the re-parse
-   falls back to an unknown step holding the same (stable) JSON *)
-Definition cmd_falls_back (c : command_step) : Prop :=
-  rem_ok cmd_primary (cs_rem c) /\ json_stable (mj_command c) /\
-  unm_command (gmap (members (mj_command c))) = Err.
-
 Fixpoint step_fix_ok (s : step) : Prop :=
   match s with
-  | SCommand c => (cmd_ok c \/ cmd_falls_back c) /\ type_selects KCommand (cs_rem c)
+  | SCommand c => cmd_ok c /\ type_selects KCommand (cs_rem c)
   | SWait sc ct => sc <> "" \/ ct = [] \/ contents_ok KWait ct
   | SInput sc ct => sc <> "" \/ contents_ok KInput ct
   | STrigger ct => contents_ok KTrigger ct
@@ -1592,12 +1594,9 @@ Proof.
     destruct f as [|f]; [pose proof (depth_pos (gv_of_json (mj_step (SCommand c)))); lia|].
     destruct OK as [CO T]. cbn [mj_step].
     assert (EQ : gv_of_json (mj_command c) = GMap (gmap (members (mj_command c)))) by reflexivity.
-    destruct CO as [CO|(R & St & Er)].
-    + rewrite EQ, unm_step_map_kind, (cmd_map_kind c (proj1 CO) T). cbn [typed_body].
-      destruct (command_roundtrip c CO) as (c' & E1 & E2). rewrite E1.
-      exists (SCommand c'), 0. split; [reflexivity|]. cbn [mj_step]. exact E2.
-    + rewrite EQ, unm_step_map_kind, (cmd_map_kind c R T). cbn [typed_body]. rewrite Er.
-      eexists. eexists. split; [reflexivity|]. cbn [mj_step]. rewrite <- EQ. apply gv_json_of_json. exact St.
+    rewrite EQ, unm_step_map_kind, (cmd_map_kind c (proj1 CO) T). cbn [typed_body].
+    destruct (command_roundtrip c CO) as (c' & E1 & E2). rewrite E1.
+    exists (SCommand c'), 0. split; [reflexivity|]. cbn [mj_step]. exact E2.
   - (* wait *)
     destruct f as [|f]; [pose proof (depth_pos (gv_of_json (mj_step (SWait sc ct)))); lia|].
     cbn [mj_step]. destruct (String.eqb_spec sc "") as [E|N]; cbn [negb].
@@ -2066,13 +2065,6 @@ Definition source_canonical (p : plugin) : Prop :=
   full_source (full_source (pl_source p)) = full_source (pl_source p).
 Definition sources_local (s : step) : Prop :=
   match s with SCommand c => Forall source_canonical (cs_plugins c) | _ => True end.
-Definition adj_has_with (a : option madj) : Prop :=
-  match a with Some a => ma_with a <> None | None => True end.
-Definition with_local (s : step) : Prop :=
-  match s with
-  | SCommand c => match cs_matrix c with Some m => Forall adj_has_with (mx_adj m) | None => True end
-  | _ => True
-  end.
 Definition unknown_local (s : step) : Prop :=
   match s with SUnknown (GMap m) => exists e, map_kind m = Some (KUnknown e) | _ => True end.
 
@@ -2090,8 +2082,6 @@ Definition pipeline_all (Q : step -> Prop) (p : pipeline) : Prop := Forall (step
 Definition no_empty_primary_with_alias (p : pipeline) : Prop := pipeline_all alias_local p.
 (* every plugin source is a fixpoint of canonicalisation *)
 Definition plugin_sources_canonical (p : pipeline) : Prop := pipeline_all sources_local p.
-(* every matrix adjustment has a `with` *)
-Definition adjustments_have_with (p : pipeline) : Prop := pipeline_all with_local p.
 (* every unknown mapping step is of unknown kind (not a typed step whose decode failed) *)
 Definition no_fallback_unknown (p : pipeline) : Prop := pipeline_all unknown_local p.
 
@@ -2132,14 +2122,14 @@ Definition restr (s : step) : Prop :=
   (alias_local s /\ sources_local s) /\ unknown_local s.
 
 Lemma cmd_from_pre : forall c, cmd_pre c ->
-  alias_local (SCommand c) -> sources_local (SCommand c) -> with_local (SCommand c) -> cmd_ok c.
+  alias_local (SCommand c) -> sources_local (SCommand c) -> cmd_ok c.
 Proof.
-  intros c (R & HP & HM & HC) A S Wt. cbn [alias_local sources_local with_local] in *.
+  intros c (R & HP & HM & HC) A S. cbn [alias_local sources_local] in *.
   destruct A as [A1 A2]. split; [exact R|]. split; [exact A1|]. split; [exact A2|]. split; [|split; [|exact HC]].
   - rewrite Forall_forall in *. intros p Hp. destruct (HP p Hp) as [X Y]. split; [apply S; exact Hp|split; assumption].
   - destruct (cs_matrix c) as [m|]; [|exact I]. destruct HM as (H1 & H2 & H3). split; [exact H1|split; [|exact H3]].
-    rewrite Forall_forall in *. intros a Ha. specialize (H2 a Ha). specialize (Wt a Ha).
-    destruct a as [a|]; [|exact I]. cbn [adj_pre adj_has_with adj_fix_ok] in *. destruct H2. auto.
+    rewrite Forall_forall in *. intros a Ha. specialize (H2 a Ha).
+    destruct a as [a|]; [|exact I]. cbn [adj_pre adj_fix_ok] in *. exact H2.
 Qed.
 
 (** the marshalled forms are stable JSON *)
@@ -2266,86 +2256,6 @@ Proof.
   - destruct (cs_cache c); [apply cache_stable; exact HC|exact I].
 Qed.
 
-(** an adjustment without `with`: the re-parse rejects the command step *)
-Lemma bind_err_r : forall {T U} (r : res T) (f : T -> res U), (forall x, f x = Err) -> bind r f = Err.
-Proof. intros T U r f H. unfold bind. destruct r; [rewrite H|]; reflexivity. Qed.
-
-Lemma mapM_err : forall {T U} (f : T -> res U) l x, In x l -> f x = Err -> mapM f l = Err.
-Proof.
-  intros T U f l x. induction l as [|y r IH]; intros Hin E; [destruct Hin|]. cbn [mapM].
-  destruct Hin as [->|Hin]; [rewrite E; reflexivity|].
-  apply bind_err_r. intros y'. rewrite (IH Hin E). reflexivity.
-Qed.
-
-Lemma adj_without_with_err : forall a, adj_pre (Some a) -> ma_with a = None ->
-  unm_adj (gv_of_json (mj_adj (Some a))) = Err.
-Proof.
-  intros a [_ R] W. rewrite mj_adj_eq, W. rewrite inline_friendly_members, gv_of_json_obj. cbn [unm_adj]. cbv zeta.
-  pose proof (adj_reobj (Some (mj_with None))
-                (if is_empty_any (ma_skip a) then None else Some (gv_json (ma_skip a))) _ R) as X.
-  cbv zeta in X. fold (adj_ol None (ma_skip a)) in X. destruct X as (F1 & _ & _).
-  rewrite F1. reflexivity.
-Qed.
-
-Lemma matrix_without_with_err : forall m a, matrix_pre m -> In (Some a) (mx_adj m) -> ma_with a = None ->
-  unm_matrix (gv_of_json (mj_matrix m)) = Err.
-Proof.
-  intros m a (_ & HA & R) Hin W.
-  assert (S : mx_simple m = None).
-  { rewrite mx_simple_eq. destruct (mx_adj m); [destruct Hin|reflexivity]. }
-  rewrite (mj_matrix_eq m S). rewrite inline_friendly_members, gv_of_json_obj. cbn [unm_matrix]. cbv zeta.
-  pose proof (matrix_reobj (Some (mj_setup (mx_setup m)))
-                (match mx_adj m with [] => None | _ => Some (JArr (map mj_adj (mx_adj m))) end) _ R) as X.
-  cbv zeta in X. fold (matrix_ol m) in X. destruct X as (_ & F2 & _).
-  apply bind_err_r. intros su.
-  assert (E : opt_field "Adjustments"
-                (partition_keys struct_Matrix (gmap (members (inline_friendly (compact (matrix_ol m)) (mx_rem m)))))
-                [] unm_adjs = Err).
-  { destruct (mx_adj m) as [|a0 r0] eqn:EA; [destruct Hin|]. rewrite <- EA in *. cbn [option_map] in F2.
-    rewrite (opt_field_some _ _ _ _ _ F2). rewrite gv_of_json_arr. cbn [unm_adjs].
-    apply (mapM_err unm_adj _ (gv_of_json (mj_adj (Some a)))).
-    - apply in_map. apply in_map. exact Hin.
-    - apply adj_without_with_err; [|exact W]. rewrite Forall_forall in HA. apply (HA _ Hin). }
-  rewrite E. reflexivity.
-Qed.
-
-Lemma with_missing_falls_back : forall c mx a,
-  cmd_pre c -> alias_local (SCommand c) ->
-  cs_matrix c = Some mx -> In (Some a) (mx_adj mx) -> ma_with a = None ->
-  cmd_falls_back c.
-Proof.
-  intros c mx a Pre A Em Hin W. pose proof Pre as (R & _ & HM & _). rewrite Em in HM.
-  split; [exact R|]. split; [apply command_stable; exact Pre|].
-  destruct A as [A1 A2].
-  rewrite (mj_command_ol c).
-  assert (A1' : str_opt (cs_key c) = None -> ~ In "id" (map fst (cs_rem c)) /\ ~ In "identifier" (map fst (cs_rem c))).
-  { unfold str_opt. destruct (String.eqb_spec (cs_key c) ""); [intros _; apply A1; assumption|discriminate]. }
-  assert (A2' : str_opt (cs_label c) = None -> ~ In "name" (map fst (cs_rem c))).
-  { unfold str_opt. destruct (String.eqb_spec (cs_label c) ""); [intros _; apply A2; assumption|discriminate]. }
-  pose proof (cmd_reobj (str_opt (cs_key c)) (str_opt (cs_label c)) (JStr (cs_command c))
-                (ne_opt (cs_plugins c) (JArr (map mj_plugin (cs_plugins c))))
-                (ne_opt (cs_env c) (mj_map_ss (cs_env c)))
-                (option_map mj_sig (cs_sig c)) (option_map mj_matrix (cs_matrix c))
-                (option_map mj_cache (cs_cache c)) (cs_rem c) R A1' A2') as X.
-  cbv zeta in X. fold (cmd_ol c) in X.
-  destruct X as (_ & _ & _ & _ & _ & _ & _ & F7 & _ & _).
-  rewrite Em in F7. cbn [option_map] in F7.
-  unfold unm_command. cbv zeta.
-  do 7 (apply bind_err_r; intro).
-  rewrite (opt_field_some _ _ _ _ _ F7), (matrix_without_with_err mx a HM Hin W). reflexivity.
-Qed.
-
-Lemma with_dec : forall l, Forall adj_has_with l \/ exists a, In (Some a) l /\ ma_with a = None.
-Proof.
-  induction l as [|x r [IH|(a & Hin & W)]].
-  - left. constructor.
-  - destruct x as [a|]; [|left; constructor; [exact I|exact IH]].
-    destruct (ma_with a) eqn:W.
-    + left. constructor; [cbn [adj_has_with]; congruence|exact IH].
-    + right. exists a. split; [left; reflexivity|exact W].
-  - right. exists a. split; [right; exact Hin|exact W].
-Qed.
-
 Lemma fix_mutual : forall f,
   (forall g ss w, unm_steps f g = Ok ss w -> gv_wf g -> Forall (steps_all restr) ss -> Forall step_fix_ok ss) /\
   (forall g s w, unm_step f g = Ok s w -> gv_wf g -> steps_all restr s -> step_fix_ok s).
@@ -2368,11 +2278,7 @@ Proof.
       - subst s K. cbn [step_fix_ok]. split.
         + pose proof (all_ok _ _ _ _ (wf_unm_command m W) Hc) as Pre.
           destruct RL as ((A & S) & _).
-          destruct (cs_matrix c) as [mx|] eqn:Em.
-          * destruct (with_dec (mx_adj mx)) as [Wt|(a & Hin & Wn)].
-            -- left. apply cmd_from_pre; try assumption. cbn [with_local]. rewrite Em. exact Wt.
-            -- right. eapply with_missing_falls_back; eassumption.
-          * left. apply cmd_from_pre; try assumption. cbn [with_local]. rewrite Em. exact I.
+          apply cmd_from_pre; assumption.
         + unfold type_selects. rewrite (cmd_rem_type _ _ _ Hc). unfold map_kind in MK.
           destruct (aget "type" m) as [[]|]; try discriminate MK; [|exact I]. congruence.
       - subst s K. right. right. split; [exact Nd|split; [apply vals_stable_wf; exact W|exact MK]].
@@ -2545,25 +2451,39 @@ Example unstable_number_counterexample :
   exists p w p' w', parse_doc d_negzero = Ok p w /\ reparse_json p = Ok p' w' /\ mj_pipeline p' <> mj_pipeline p.
 Proof. fix_fails d_negzero. Qed.
 
-(* an adjustment without `with` marshals "with": null, which the re-parse rejects; the whole step then
-   falls back to an unknown step holding the same JSON: covered by the theorem ([cmd_falls_back]) *)
+(* an adjustment without `with` marshals "with": {} (fix F20), which re-reads as an empty `with`: the
+   step is still a command step after the re-parse and the second marshalling equals the first *)
 Definition d_with : gv :=
   GSeq [GMap [("command", GStr "x");
               ("matrix", GMap [("setup", GSeq [GStr "a"]); ("adjustments", GSeq [GMap [("skip", GBool true)]])])]].
+Example adjustment_without_with_roundtrips :
+  exists p w c m a p' w' c',
+    parse_doc d_with = Ok p w /\
+    pp_steps p = [SCommand c] /\ cs_matrix c = Some m /\ mx_adj m = [Some a] /\ ma_with a = None /\
+    reparse_json p = Ok p' w' /\ mj_pipeline p' = mj_pipeline p /\ pp_steps p' = [SCommand c'].
+Proof.
+  do 8 eexists.
+  split; [vm_compute; reflexivity|].
+  split; [vm_compute; reflexivity|].
+  split; [vm_compute; reflexivity|].
+  split; [vm_compute; reflexivity|].
+  split; [vm_compute; reflexivity|].
+  split; [vm_compute; reflexivity|].
+  split; vm_compute; reflexivity.
+Qed.
+
+(* and it is inside the theorem's domain: no hypothesis about `with` is needed any more *)
 Example adjustment_without_with_covered :
-  exists p w, parse_doc d_with = Ok p w /\ ~ adjustments_have_with p /\ pipeline_fix_ok p.
+  exists p w, parse_doc d_with = Ok p w /\ pipeline_fix_ok p.
 Proof.
   remember (parse_doc d_with) as r eqn:Er. vm_compute in Er.
-  eexists. eexists. split; [rewrite Er; reflexivity|]. split.
-  - unfold adjustments_have_with, pipeline_all. cbn [pp_steps]. intros H. inversion H as [|? ? H1 _]; subst.
-    destruct H1 as [H1 _]. cbn [with_local cs_matrix mx_adj] in H1. inversion H1 as [|? ? H2 _]; subst.
-    apply H2. reflexivity.
-  - eapply (parse_result_fix_ok d_with); [vm_compute; reflexivity| | | |].
-    + unfold doc_ok, d_with. cbn [gv_wf map fst snd]. pred.
-    + unfold no_empty_primary_with_alias, pipeline_all. cbn [pp_steps].
-      repeat constructor; cbn [alias_local alias_free cs_key cs_label cs_rem]; pred.
-    + unfold plugin_sources_canonical, pipeline_all. cbn [pp_steps]. repeat constructor; cbn [sources_local cs_plugins]; pred.
-    + unfold no_fallback_unknown, pipeline_all. cbn [pp_steps]. repeat constructor; cbn [unknown_local]; pred.
+  eexists. eexists. split; [rewrite Er; reflexivity|].
+  eapply (parse_result_fix_ok d_with); [vm_compute; reflexivity| | | |].
+  - unfold doc_ok, d_with. cbn [gv_wf map fst snd]. pred.
+  - unfold no_empty_primary_with_alias, pipeline_all. cbn [pp_steps].
+    repeat constructor; cbn [alias_local alias_free cs_key cs_label cs_rem]; pred.
+  - unfold plugin_sources_canonical, pipeline_all. cbn [pp_steps]. repeat constructor; cbn [sources_local cs_plugins]; pred.
+  - unfold no_fallback_unknown, pipeline_all. cbn [pp_steps]. repeat constructor; cbn [unknown_local]; pred.
 Qed.
 
 (* configs as Parse stores them (ToMapRecursive of a document value) are fixpoints *)
